@@ -17,7 +17,7 @@ out = ["(* The panic-site ledger of the pinned tree: every potential panic site 
        "   reviewed by hand; a site of the CURRENT tree that is not listed here breaks C01_ledger_complete. *)",
        "From Coq Require Import String List NArith.", "Import ListNotations.", "Local Open Scope string_scope.", "",
        "Inductive site_class : Type :=",
-       "| Proved (lemma : string)        (* the panicking branch is unreachable: lemma in Proofs/C01.v *)",
+       "| Proved (lemma : string)        (* the panicking branch is unreachable: lemma in Proofs/C01.v or Proofs/C01Sites.v *)",
        "| Reachable (finding : string)   (* a panic reachable within the property's bounds: known finding *)",
        "| Unmodelled.                    (* not modelled: covered by exploration only *)", "",
        "Definition ledger : list ((string * string * string * string * N) * site_class) :=", "  ["]
